@@ -303,7 +303,19 @@ def r3_exits(rule, root=None):
     # no free parameters: nothing to evaluate (zero-width gradient batch)
     i_loop = next(i for i, s in enumerate(solve["body"]["stmts"]) if A.strip(A.stmt_expr(s) or {}) is loops[0])
     pre = [txt(s) for s in solve["body"]["stmts"][:i_loop]]
-    guard = [s for s in pre if s.startswith("ifcur.is_empty(){returnOk(HashMap::new());}")]
+    guard = [s for s in pre if s.startswith("ifcur.is_empty(){returnOk(HashMap::new());}") or s.startswith("ifsolver.grad_index.is_empty(){returnOk(HashMap::new());}")]
+    if guard and str(guard[0]).startswith("ifcur.is_empty()"):
+        # `cur` is empty exactly when nothing is free only if it has one entry per free parameter
+        try:
+            view = A.inline_helpers(solve)
+        except Exception:  # noqa: BLE001
+            view = solve["body"]
+        macs = [m_ for m_ in A.find(view, "Macro") if m_.get("name") == "vec" and ";" in A.tokens_str(m_["tokens"])]
+        lens = [A.tokens_str(m_["tokens"]).replace(" ", "").split(";")[-1] for m_ in macs]
+        lens = [re.sub(r"^\(?&?(solver\.)?grad_index\)?\.len\(\)$", "solver.grad_index.len()", l_) for l_ in lens]
+        if "solver.grad_index.len()" not in lens:
+            guard = []
+            rule.bad("exit|nofree|len", "`cur` has %s entries, so `cur.is_empty()` no longer means \"no free parameter\": with every parameter Fixed the zero-width gradient batch is read" % (lens[-1] if lens else "an unknown number of"), A.where(solve))
     new = A.find_fn(SOL, "new", self_ty="Solver", root=root)
     wide = ".div_ceil(3).max(1)" in txt(new["body"])
     if guard or wide:
